@@ -1660,7 +1660,14 @@ class zip(Stream):
             self._release_refs(md)
             return ret
         elif len(L) > self.maxsize:
-            return self.condition.wait()
+            return self._wait_for_room(L)
+
+    @gen.coroutine
+    def _wait_for_room(self, L):
+        # notify_all() wakes every blocked producer; only those whose buffer
+        # has room again may carry on
+        while len(L) > self.maxsize:
+            yield self.condition.wait()
 
 
 @Stream.register_api()
